@@ -144,6 +144,13 @@ def meaning (b : Bytes) (secs : List Sec) : Decoded :=
     headerLen := 14 + (declared b : Int),
     payloadLen := (totalLen b : Int) + 4 - (14 + (declared b : Int)) }
 
+/-- a buffer announces a streaming frame: at least 8 bytes, the magic, and flag bit 1 (value 0x0002) set -/
+def streaming (b : Bytes) : Bool :=
+  decide (8 ≤ b.length ∧ rd16 (b.drop 4) = 0x1000 ∧ rd16 (b.drop 6) / 2 % 2 = 1)
+
+/-- a string with its 4-byte length -/
+def str4 (s : Bytes) : Bytes := be32 s.length ++ s
+
 /-! ## executable reference for `Valid` (used by the driver; proved equivalent in Lemmas/TthRef) -/
 
 /-- split off one length-prefixed string -/
